@@ -18,29 +18,37 @@
 
    ORDER = "code" is the order above; ORDER = "events-first" closes inEvents before waiting for the
    announce-triggered syncs (a typical slip: TLC finds the send on a closed channel).
-   FIXED = FALSE is the pinned doClose, which does not wait for the distributor.                   *)
+   FIXED = FALSE is the pinned doClose, which does not wait for the distributor.
+
+   R r        a listener registration (OnSyncFinished): select { hand the channel to the distributor | distDone: return
+              a closed channel }.  REGSEL = "closing" is a plausible slip (falling back on the closing channel, which is
+              closed at the START of doClose): a registration is then refused while notifications are still delivered.  *)
 EXTENDS Integers, Sequences, FiniteSets, TLC
 
-CONSTANTS Closers, NG, NE, FIXED, ORDER
+CONSTANTS Closers, NG, NE, FIXED, ORDER,
+          NR,        \* listener registrations attempted at arbitrary moments
+          REGSEL     \* "distDone" (the code) | "closing"
 Gs == 1..NG
 Es == 1..NE
+Rs == 1..NR
 
 VARIABLES cpc, first, closing, expClosed, expWG, rcvClosed, watchDone, asyncWG, inEvents, inClosed, distDone, cancelled,
-          wpc, spawned, gpc, epc, dpc, hooks, forwards, listenersClosed, closeReturned, panic
+          wpc, spawned, gpc, epc, dpc, hooks, forwards, listenersClosed, closeReturned, panic, rpc
 vars == <<cpc, first, closing, expClosed, expWG, rcvClosed, watchDone, asyncWG, inEvents, inClosed, distDone, cancelled,
-          wpc, spawned, gpc, epc, dpc, hooks, forwards, listenersClosed, closeReturned, panic>>
+          wpc, spawned, gpc, epc, dpc, hooks, forwards, listenersClosed, closeReturned, panic, rpc>>
 
 Init == /\ cpc = [c \in Closers |-> "idle"] /\ first = 0 /\ closing = FALSE /\ expClosed = FALSE /\ expWG = 0
         /\ rcvClosed = FALSE /\ watchDone = FALSE /\ asyncWG = 0 /\ inEvents = 0 /\ inClosed = FALSE /\ distDone = FALSE
         /\ cancelled = FALSE /\ wpc = "next" /\ spawned = 0 /\ gpc = [g \in Gs |-> "unborn"] /\ epc = [e \in Es |-> "idle"]
         /\ dpc = "select" /\ hooks = 0 /\ forwards = 0 /\ listenersClosed = FALSE /\ closeReturned = FALSE /\ panic = FALSE
+        /\ rpc = [r \in Rs |-> "idle"]
 
 Steps == IF ORDER = "code" THEN <<"c1", "c2", "c3", "c4", "c5", "c6", "c7", "c8", "ret">>
          ELSE <<"c1", "c2", "c3", "c4", "c5", "c7", "c6", "c8", "ret">>
 NextStep(s) == LET i == CHOOSE k \in 1..Len(Steps) : Steps[k] = s IN Steps[i + 1]
 Goto(c, s) == cpc' = [cpc EXCEPT ![c] = s]
 
-U(vs) == UNCHANGED vs
+U(vs) == UNCHANGED vs /\ UNCHANGED rpc
 CEnter(c) == /\ cpc[c] = "idle"
              /\ IF first = 0 THEN first' = c /\ Goto(c, "c1") ELSE UNCHANGED first /\ Goto(c, "wait")
              /\ U(<<closing, expClosed, expWG, rcvClosed, watchDone, asyncWG, inEvents, inClosed, distDone, cancelled, wpc, spawned, gpc, epc, dpc, hooks, forwards, listenersClosed, closeReturned, panic>>)
@@ -90,7 +98,16 @@ DForward == /\ dpc = "select" /\ inEvents = 1 /\ inEvents' = 0 /\ forwards' = fo
 DExit == /\ dpc = "select" /\ inEvents = 0 /\ inClosed /\ dpc' = "done" /\ listenersClosed' = TRUE /\ distDone' = TRUE
          /\ U(<<cpc, first, closing, expClosed, expWG, rcvClosed, watchDone, asyncWG, inEvents, inClosed, cancelled, wpc, spawned, gpc, epc, hooks, forwards, closeReturned, panic>>)
 
+(* listener registrations *)
+Others == <<cpc, first, closing, expClosed, expWG, rcvClosed, watchDone, asyncWG, inEvents, inClosed, distDone, cancelled,
+            wpc, spawned, gpc, epc, dpc, hooks, forwards, listenersClosed, closeReturned, panic>>
+RStart(r) == rpc[r] = "idle" /\ rpc' = [rpc EXCEPT ![r] = "wait"] /\ UNCHANGED Others
+RAdd(r) == rpc[r] = "wait" /\ dpc = "select" /\ rpc' = [rpc EXCEPT ![r] = "added"] /\ UNCHANGED Others      \* the distributor takes the channel
+RRefuse(r) == /\ rpc[r] = "wait" /\ (IF REGSEL = "distDone" THEN distDone ELSE closing)
+              /\ rpc' = [rpc EXCEPT ![r] = IF distDone THEN "refused" ELSE "refused-early"] /\ UNCHANGED Others
+
 AllDone == /\ \A c \in Closers : cpc[c] = "done" /\ wpc = "done" /\ dpc = "done"
+           /\ \A r \in Rs : rpc[r] \in {"added", "refused", "refused-early"}
            /\ \A g \in Gs : gpc[g] \in {"unborn", "done"} /\ \A e \in Es : epc[e] \in {"refused", "done"}
 Finished == AllDone /\ UNCHANGED vars
 
@@ -98,6 +115,7 @@ Next == \/ \E c \in Closers : CEnter(c) \/ CWait(c) \/ CStep(c)
         \/ WSpawn \/ WExit \/ \E g \in Gs : GStart(g) \/ GSend(g)
         \/ \E e \in Es : EStart(e) \/ ESend(e)
         \/ DForward \/ DExit \/ Finished
+        \/ \E r \in Rs : RStart(r) \/ RAdd(r) \/ RRefuse(r)
 Spec == Init /\ [][Next]_vars
 
 (* C15 *)
@@ -109,5 +127,7 @@ CloseIsFinal == closeReturned =>
    /\ distDone /\ listenersClosed /\ inEvents = 0
 (* ... and nothing happens afterwards: no block hook, no notification *)
 QuietAfterClose == [][closeReturned => (hooks' = hooks /\ forwards' = forwards)]_vars
+(* C14: a registration is refused (gets a closed channel) only when the distributor has gone: nothing is delivered any more *)
+RefusedOnlyWhenGone == \A r \in Rs : rpc[r] # "refused-early"
 (* with deadlock checking on: every interleaving ends with all processes finished (no hang for any number of closers) *)
 =============================================================================
